@@ -9,17 +9,17 @@ FIXES = subprocess.run(['git', '-C', '/repo', 'log', '--format=%h %s', 'bbece76.
 CHECKS = {
  'C01': dict(
    technique='abstract interpretation of the session layer (own forking interpreter over the AST, interval refinement, no solver): complete (event,state) reaction table extracted from source and compared cell by cell with an RFC 4271 8.2.2 profile; wire-dispatch and establishment-typestate rules on the same table',
-   text='Static rule discharge: for every FSM state and every entry point (operator command, each timer callback, Twisted connection callbacks, every input class of parse_buffer) all paths of the handler code are extracted and each resulting cell (messages with code/subcode, close, next state) is compared with the RFC profile. Decides the per-event reaction for all (state,event) pairs, hence for every history in the single-connection regime, because handlers read only the state and a closed set of atoms. Does not decide timing or reactor interleavings. Added: an error close to Idle carries a restart token exactly when automatic restart is allowed. The ConnectRetryTimer is off whenever OpenSent is entered; constant-table lookups (.get on module dictionaries) and attribute access on None are modelled, so an exception swallowed by the catch-all of parse_buffer shows as a message that is dispatched to nobody. An error close from a session state stops the hold and keepalive timers. ManualStop zeroes the ConnectRetryCounter in every regime; BGPTimer.active() asks the pending DelayedCall.',
+   text='Static rule discharge: for every FSM state and every entry point (operator command, each timer callback, Twisted connection callbacks, every input class of parse_buffer) all paths of the handler code are extracted and each resulting cell (messages with code/subcode, close, next state) is compared with the RFC profile. Decides the per-event reaction for all (state,event) pairs, hence for every history in the single-connection regime, because handlers read only the state and a closed set of atoms. Does not decide timing or reactor interleavings. Added: an error close to Idle carries a restart token exactly when automatic restart is allowed. The ConnectRetryTimer is off whenever OpenSent is entered; constant-table lookups (.get on module dictionaries) and attribute access on None are modelled, so an exception swallowed by the catch-all of parse_buffer shows as a message that is dispatched to nobody. An error close from a session state stops the hold and keepalive timers. ManualStop zeroes the ConnectRetryCounter in every regime; BGPTimer.active() asks the pending DelayedCall. The hold time an accepted OPEN leaves in the FSM is min(configured, proposed in this OPEN) (R01.c, shared with C02).',
    design='DESIGN.md section 3 C01, Appendix A/B',
    note='Trusted: CPython ast; the Twisted model of sa/session.py (buildProtocol, callFromThread, loseConnection ends in connectionLost); BGPTimer primitives (shape checked by C03 R03.g); the transcribed RFC profile in sa/profile.py. Decoder loops abstracted to 0/1 iteration.'),
  'C02': dict(
    technique='restart-token must-analysis on the extracted reaction table (abstract interpretation of fsm.py/factory.py/protocol.py) + who-may-write scan of the operator flag',
-   text='Static rule discharge of the structural necessary condition of self-healing: on every non-operator path of every (event,state) cell that ends in Idle, or that consumes a pending restart, a reconnection is pending afterwards (idle-hold timer armed, connect started, or close requested whose connectionLost re-arms it); the restart chain is guarded by nothing but the operator flag, which only manual start/stop write. By induction over events this gives "never stuck" for every history; the numeric time bound and "stays up" are not decided. Added: the TCP-loss cells of the RFC profile are evaluated in every state (R02.g). The no-connection regimes include the one in which the previous connection\'s close was already reported (estab_protocol cleared) while the FSM still references the old protocol object. Two structural conditions of "stays up" are decided: no timer armed with 0 in OpenConfirm/Established, and a late connectionLost of a replaced connection leaves the live session alone (R02.h).',
+   text='Static rule discharge of the structural necessary condition of self-healing: on every non-operator path of every (event,state) cell that ends in Idle, or that consumes a pending restart, a reconnection is pending afterwards (idle-hold timer armed, connect started, or close requested whose connectionLost re-arms it); the restart chain is guarded by nothing but the operator flag, which only manual start/stop write. By induction over events this gives "never stuck" for every history; the numeric time bound and "stays up" are not decided. Added: the TCP-loss cells of the RFC profile are evaluated in every state (R02.g). The no-connection regimes include the one in which the previous connection\'s close was already reported (estab_protocol cleared) while the FSM still references the old protocol object. Two structural conditions of "stays up" are decided: no timer armed with 0 in OpenConfirm/Established, and a late connectionLost of a replaced connection leaves the live session alone (R02.h). BGPTimer reset / cancel / active act on the stored DelayedCall (R02.i, shape rule shared with C03).',
    design='DESIGN.md section 3 C02',
    note='Same trusted base as C01. Active is shown transient on every run (R02.f); if that stops holding its rows lose their exemption.'),
  'C03': dict(
    technique='timer-arming rules on the extracted reaction table with interval partition of the hold time (H = 0 / H > 0), symbolic check of the negotiated values (min, /k), AST shape rule for BGPTimer',
-   text='Static rule discharge: keepalive period = negotiated hold / k (k >= 3) and hold = min(configured, proposed) on every accepting path; keepalive expiry sends KEEPALIVE and re-arms iff H > 0; KEEPALIVE/UPDATE restart the hold timer; no timer is ever armed with H = 0; hold expiry sends NOTIFICATION (4,0) and closes; OPEN arms the 240 s timer; BGPTimer.reset/cancel have the semantics the rest relies on. Emission times, "at that moment" and same-instant orderings are not decided. Added: at wire level every delivered KEEPALIVE/UPDATE in Established (tolerated malformed UPDATE included) restarts the hold timer. BGPTimer.reset passes the requested delay on unchanged. Reception of KEEPALIVE/UPDATE never re-arms the keepalive timer.',
+   text='Static rule discharge: keepalive period = negotiated hold / k (k >= 3) and hold = min(configured, proposed) on every accepting path; keepalive expiry sends KEEPALIVE and re-arms iff H > 0; KEEPALIVE/UPDATE restart the hold timer; no timer is ever armed with H = 0; hold expiry sends NOTIFICATION (4,0) and closes; OPEN arms the 240 s timer; BGPTimer.reset/cancel have the semantics the rest relies on. Emission times, "at that moment" and same-instant orderings are not decided. Added: at wire level every delivered KEEPALIVE/UPDATE in Established (tolerated malformed UPDATE included) restarts the hold timer. BGPTimer.reset passes the requested delay on unchanged. Reception of KEEPALIVE/UPDATE never re-arms the keepalive timer. The hold time advertised in our OPEN is the configured one.',
    design='DESIGN.md section 3 C03',
    note='Same trusted base as C01; reactor.callLater / DelayedCall semantics as documented by Twisted.'),
  'C12': dict(
@@ -44,17 +44,17 @@ CHECKS = {
    note='Same trusted base as C01. Acceptance dominance itself is discharged by C01 R01.c (open-accept).'),
  'C10': dict(
    technique='exception-funnel rule (AST: calls inside catch-all try) + escape analysis on the extracted table with struct.unpack/opaque decoders modelled as possibly raising; per-path report counting; effect set of the malformed-UPDATE path; shared-state write scan over yabgp/message/**',
-   text='Static rule discharge: no exception escapes a Twisted callback on any extracted path, each well-framed message yields at most one report on every path, the malformed-UPDATE path in Established only reports (with the raw bytes), counts and restarts the hold timer, and no decoder writes module/class/configuration state (so earlier input cannot change how later messages decode). Termination is C11/C04. Added: a well-framed message whose decoder raises is consumed exactly once (it cannot wedge the messages behind it). No header is left undecided and every framing violation is answered in every state. The Data of every NOTIFICATION built is a byte string; no except clause of parse_buffer reports to the application.',
+   text='Static rule discharge: no exception escapes a Twisted callback on any extracted path, each well-framed message yields at most one report on every path, the malformed-UPDATE path in Established only reports (with the raw bytes), counts and restarts the hold timer, and no decoder writes module/class/configuration state (so earlier input cannot change how later messages decode). Termination is C11/C04. Added: a well-framed message whose decoder raises is consumed exactly once (it cannot wedge the messages behind it). No header is left undecided and every framing violation is answered in every state. The Data of every NOTIFICATION built is a byte string; no except clause of parse_buffer reports to the application. A reported message is consumed (R10.b second clause); connectionLost after our own close arms the idle-hold timer wherever automatic start is allowed (R10.k).',
    design='DESIGN.md section 3 C10',
    note='Same trusted base as C01. Library calls other than struct.unpack and the opaque Update codec are assumed not to raise.'),
  'C18': dict(
    technique='path counting on the abstract interpretation of every BGP.send_* method and of every table cell: delta of the concrete counter dictionaries vs number of transport writes / dispatched frames, per type; who-may-write scan',
-   text='Static rule discharge: on every path of every send method and of every (event,state) cell the sent counters move by exactly the messages written per type; on every dispatch path the received counter of the frame type moves by 1 iff the frame has the minimum length of its type; only BGP methods write the dictionaries and the REST view returns the tracked protocol. By induction over events the counters equal the wire counts for every history. One known finding (short OPEN frames are counted). Request-driven sends count after the write; the statistic route is not gated by the session state. No send / write call is given several joined messages.',
+   text='Static rule discharge: on every path of every send method and of every (event,state) cell the sent counters move by exactly the messages written per type; on every dispatch path the received counter of the frame type moves by 1 iff the frame has the minimum length of its type; only BGP methods write the dictionaries and the REST view returns the tracked protocol. By induction over events the counters equal the wire counts for every history. One known finding (short OPEN frames are counted). Request-driven sends count after the write; the statistic route is not gated by the session state. No send / write call is given several joined messages. The Data of every send_notification is bytes, so nothing can raise between count and write (R18.e); the receive bookkeeping that runs before the UPDATE counter cannot raise on integer flowspec keys where its family test is live (R18.f).',
    design='DESIGN.md section 3 C18',
    note='Same trusted base as C01; effects inside the internal-queue drain loop are seen for one iteration.'),
  'C08': dict(
    technique='ByteLen analysis: every construct function abstractly interpreted to symbolic concatenations; linear-form equality between each len()-derived field and the bytes it covers; symbolic TLV-stream walker for literal lengths (tunnel encapsulation, capabilities), MP_REACH layout, attribute-header/flag table rule, finite partition of prefix widths',
-   text='Static rule discharge on all 65 construct functions: message headers (marker, total length, type), attribute headers (RFC category flags, type code, extended-length bit iff 2-octet length, length = value size), every len()-computed field equals the run of bytes that follows it on every path (0/1 loop iteration, linear arithmetic), literal TLV lengths equal literal bodies, prefixes occupy ceil(len/8) octets for every length, and no construct path returns None silently. Value-range overflow and the 4096 limit are not decided. Added: every returning path of every message-level constructor yields exactly marker + length(total) + type + body; fixed-width fields (PMSI label = 3 octets) on every path. The 1-octet attribute length form is reached for at most 255 octets; an accumulator that is grown and emitted inside a loop is reset inside that loop. No handler inside a loop of a construct function skips an element silently. The Opt Parm Len of the OPEN equals the size of the optional parameters the same call appends; no signed struct code in construct functions.',
+   text='Static rule discharge on all 65 construct functions: message headers (marker, total length, type), attribute headers (RFC category flags, type code, extended-length bit iff 2-octet length, length = value size), every len()-computed field equals the run of bytes that follows it on every path (0/1 loop iteration, linear arithmetic), literal TLV lengths equal literal bodies, prefixes occupy ceil(len/8) octets for every length, and no construct path returns None silently. Value-range overflow and the 4096 limit are not decided. Added: every returning path of every message-level constructor yields exactly marker + length(total) + type + body; fixed-width fields (PMSI label = 3 octets) on every path. The 1-octet attribute length form is reached for at most 255 octets; an accumulator that is grown and emitted inside a loop is reset inside that loop. No handler inside a loop of a construct function skips an element silently. The Opt Parm Len of the OPEN equals the size of the optional parameters the same call appends; no signed struct code in construct functions. The flowspec operator octet written for value sizes 1..8 announces the number of octets that follow, or the size is refused (R08.f, both flowspec classes).',
    design='DESIGN.md section 3 C08',
    note='Trusted: struct.calcsize, netaddr .packed being 4 or 16 octets, transcribed RFC flag categories / TLV grammars in sa/rules/c08.py.'),
  'C09': dict(
@@ -64,22 +64,22 @@ CHECKS = {
    note='Trusted: oracle tables in sa/rules/c09.py; the interpreter model of struct/slices in sa/prims.py.'),
  'C11': dict(
    technique='loop-progress proof by abstract interpretation: every decoder while-loop is run for one iteration on symbolic input and on each back-edge path a cursor of the loop test must be a strict suffix of its previous value (slice offset with interval lower bound >= 1); call-cycle and exception-funnel AST rules',
-   text='Static rule discharge: each of the 42 decoder while-loops makes progress on every path back to its head (so it terminates on every finite input), recursion through TLV registries passes strict sub-slices, for-loops do not grow their collection, and Update.parse funnels every decoder exception into a sub-error result. A quantitative work bound is not decided. Added: recursive decoders called in a loop receive bounded windows (no 2^k re-decoding of siblings); every call in a handler of Update.parse is total. A loop that grows its test variable must bound the growth from above.',
+   text='Static rule discharge: each of the 42 decoder while-loops makes progress on every path back to its head (so it terminates on every finite input), recursion through TLV registries passes strict sub-slices, for-loops do not grow their collection, and Update.parse funnels every decoder exception into a sub-error result. A quantitative work bound is not decided. Added: recursive decoders called in a loop receive bounded windows (no 2^k re-decoding of siblings); every call in a handler of Update.parse is total. A loop that grows its test variable must bound the growth from above. Class-level registries filled by decorators are opaque to the interpreter (never folded to their empty initialiser), so the branch that calls a registered decoder is walked.',
    design='DESIGN.md section 3 C11',
    note='Trusted: interval transfer functions of sa/prims.py; helper return values are taken from one loop iteration (their lower bounds only grow with more iterations).'),
  'C06': dict(
    technique='abstract interpretation of Update.construct (every built part present in the result on every path), finite partition of IPv4 prefix widths on encoder and decoder, signed-format scan, per-attribute value layout vs RFC layout table, dispatch-table symmetry',
-   text='Static rule discharge of necessary conditions of the round trip: no part of the request is dropped or replaced by None, encoder and decoder use ceil(m/8) octets for every m in 0..32, no signed wire format, each standard attribute encoder writes the field widths its decoder reads (RFC layout table), every encoded type code has the same codec class on the decode side. Round-trip equality over the value space is NOT decided (not a static property); breaking any of these clauses breaks the round trip. Added: no standard attribute codec sorts/reverses/de-duplicates a collection of input elements; every well-known community name the decoder renders is accepted back. AS_PATH switches to the extended length form exactly at 256 octets (interval of the packed length per path); no comparison in these codecs splits a range between 2^k-2 and 2^k-1. Decoders subscript constant tables with received keys only under a membership / equality test of that key. construct_prefix_v4 receives the request\'s own prefix lists; decoder loops run while a minimal element still fits.',
+   text='Static rule discharge of necessary conditions of the round trip: no part of the request is dropped or replaced by None, encoder and decoder use ceil(m/8) octets for every m in 0..32, no signed wire format, each standard attribute encoder writes the field widths its decoder reads (RFC layout table), every encoded type code has the same codec class on the decode side. Round-trip equality over the value space is NOT decided (not a static property); breaking any of these clauses breaks the round trip. Added: no standard attribute codec sorts/reverses/de-duplicates a collection of input elements; every well-known community name the decoder renders is accepted back. AS_PATH switches to the extended length form exactly at 256 octets (interval of the packed length per path); no comparison in these codecs splits a range between 2^k-2 and 2^k-1. Decoders subscript constant tables with received keys only under a membership / equality test of that key. construct_prefix_v4 receives the request\'s own prefix lists; decoder loops run while a minimal element still fits. An attribute constructor that can exceed 255 octets produces both length forms; the extended-community name tables are mutually consistent (code -> name -> code).',
    design='DESIGN.md section 3 C06',
    note='Trusted: RFC layout table in sa/rules/c06.py; interpreter model of struct/slices.'),
  'C07': dict(
    technique='AFI/SAFI dispatch tables extracted from both directions and compared, finite partition of NLRI prefix widths, abstract interpretation of ESI/RD/label encoders for exact record sizes and the bottom-of-stack bit, type-tag set comparison',
-   text='Static rule discharge of necessary conditions: every family the MP_REACH/MP_UNREACH encoders emit is decoded by the same codec class, NLRI prefix helpers emit ceil(m/8) octets from full-width addresses, ESI is 10 octets for every type, RD 8, labels 3 with the S bit on the last one, RD/ESI type tags handled on both sides. Value equality is not decided. Added: the decoder hands every ESI value octet the encoder writes to a conversion (read-coverage log of the interpreter), the flowspec operator octet is folded for all 256 values against the RFC 5575 bit fields and every length the encoder accepts maps to the code the decoder maps back, no NLRI codec reorders or de-duplicates input collections. Five known findings. Every returning path of an EVPN route-type decoder yields every key its encoder requires; the IPv6 link-local next hop is reported exactly for a 32-octet next hop on every path; no comparison splits a range between 2^k-2 and 2^k-1. With two labels the S bit is on the last entry only on every path; the flowspec operand is never produced by a stripping operation. No signed struct code in the NLRI / MP codecs.',
+   text='Static rule discharge of necessary conditions: every family the MP_REACH/MP_UNREACH encoders emit is decoded by the same codec class, NLRI prefix helpers emit ceil(m/8) octets from full-width addresses, ESI is 10 octets for every type, RD 8, labels 3 with the S bit on the last one, RD/ESI type tags handled on both sides. Value equality is not decided. Added: the decoder hands every ESI value octet the encoder writes to a conversion (read-coverage log of the interpreter), the flowspec operator octet is folded for all 256 values against the RFC 5575 bit fields and every length the encoder accepts maps to the code the decoder maps back, no NLRI codec reorders or de-duplicates input collections. Five known findings. Every returning path of an EVPN route-type decoder yields every key its encoder requires; the IPv6 link-local next hop is reported exactly for a 32-octet next hop on every path; no comparison splits a range between 2^k-2 and 2^k-1. With two labels the S bit is on the last entry only on every path; the flowspec operand is never produced by a stripping operation. No signed struct code in the NLRI / MP codecs. Every flowspec component type 1..11 the decoder stores is written back by the encoder (R07.m; type 9 is a recorded finding); the NLRI codecs write no module / class state (R07.n).',
    design='DESIGN.md section 3 C07',
    note='Assumes MAC addresses have six groups; padded-hex idiom recognised structurally.'),
  'C14': dict(
    technique='abstract interpretation of Open.parse (result dictionary on every normal path), struct-format agreement between parse and construct of each message, finite partition of KEEPALIVE body lengths, capability code tables vs IANA and encoder/decoder branch sets',
-   text='Static rule discharge: Open.parse returns the dictionary with and without optional parameters, the fixed parts use the same formats and offsets both ways, KEEPALIVE is 19 octets and only an empty body is accepted, capability constants equal the IANA codes and every emitted capability has an encoder and a decoder branch, unknown codes are kept. Value equality is not decided. Added: the capability dispatch is total over codes 0..255 (finite partition); NOTIFICATION construct packs the code/subcode/data given on every path. No comparison in these codecs splits a range between 2^k-2 and 2^k-1 (AS 65535 is a 2-octet AS). Open.parse leaves the hold-time field unconstrained (the codec accepts 0..65535). Record loops of Open.parse advance by the record size (no running counter in the stride); Opt Parm Len agrees with what follows; no signed struct code.',
+   text='Static rule discharge: Open.parse returns the dictionary with and without optional parameters, the fixed parts use the same formats and offsets both ways, KEEPALIVE is 19 octets and only an empty body is accepted, capability constants equal the IANA codes and every emitted capability has an encoder and a decoder branch, unknown codes are kept. Value equality is not decided. Added: the capability dispatch is total over codes 0..255 (finite partition); NOTIFICATION construct packs the code/subcode/data given on every path. No comparison in these codecs splits a range between 2^k-2 and 2^k-1 (AS 65535 is a 2-octet AS). Open.parse leaves the hold-time field unconstrained (the codec accepts 0..65535). Record loops of Open.parse advance by the record size (no running counter in the stride); Opt Parm Len agrees with what follows; no signed struct code. The two address-family name tables are inverse bijections (R14.e).',
    design='DESIGN.md section 3 C14',
    note='Trusted: IANA table in sa/rules/c14.py.'),
  'C15': dict(
@@ -94,7 +94,7 @@ CHECKS = {
    note='Trusted: Flask decorator order semantics, HTTPBasicAuth.get_password / login_required.'),
  'C17': dict(
    technique='table closure over folded constant tables and the if/elif chains of decoder, encoder and both REST views; structural comparison of the two recombination copies; normaliser/lookup agreement for well-known names; abstract interpretation of ExtCommunity.construct per code for the 8-octet size',
-   text='Static rule discharge of necessary conditions: every text name the decoder renders is translated by both views to a code the encoder handles, the name tables are inverse, the two view copies have identical arms, every well-known community name survives the encoder lookup, no decoder path raises on every input, every code encodes to 8 octets. Value-level identity of the text is not decided. Added: per extended-community code the decoder reads every value octet in which the encoder places a non-constant; raise-guards of the community encoders do not reject the largest value of a field. The boundary rule also covers the REST recombination code (65535 is a 2-octet AS administrator). No signed struct code in the community codecs.',
+   text='Static rule discharge of necessary conditions: every text name the decoder renders is translated by both views to a code the encoder handles, the name tables are inverse, the two view copies have identical arms, every well-known community name survives the encoder lookup, no decoder path raises on every input, every code encodes to 8 octets. Value-level identity of the text is not decided. Added: per extended-community code the decoder reads every value octet in which the encoder places a non-constant; raise-guards of the community encoders do not reject the largest value of a field. The boundary rule also covers the REST recombination code (65535 is a 2-octet AS administrator). No signed struct code in the community codecs. The boundary rule also reports a threshold one above 2**(8n).',
    design='DESIGN.md section 3 C17',
    note='Trusted: constant folding of yabgp/common/constants.py by sa/front.py.'),
  'C19': dict(
